@@ -330,6 +330,18 @@ def proof_gate(pid, thorough=False):
 
 # ------------------------------------------------------------------ findings
 
+def with_corpus(pid, cases):
+    """corpus/<pid>.json holds case seeds kept from earlier failures (inputs
+    that distinguished a seeded or real defect): they run first, on every run"""
+    p = os.path.join(VERIF, 'corpus', pid + '.json')
+    if not os.path.exists(p):
+        return cases
+    with open(p) as f:
+        seeds = [int(s) for s in json.load(f).get('seeds', [])]
+    seen = set(cases)
+    return [s for s in dict.fromkeys(seeds) if s not in seen] + cases
+
+
 def known_findings(pid):
     """lines 'known: property=Cxx key=<key> <text>' of KNOWN_FINDINGS.txt"""
     out = {}
